@@ -34,7 +34,7 @@ OPTS = ["SGD", "SGDmomentum", "Adam", "Adadelta"]
 
 
 def cases(tier, seed):
-    n = 72 if tier == "quick" else 2000
+    n = 72 if tier == "quick" else 15000
     return [{"rep": i, "seed": seed} for i in range(n)]
 
 
